@@ -5,6 +5,7 @@
 
 pub use crate::alloc::{AllocError, AllocProxy, Allocator, CaoLangAllocator, SysAllocator};
 pub use crate::bytecode::{decode_str, encode_str, read_from_bytes, write_to_vec};
+pub use crate::vm::instr_execution::{decode_value, read_str};
 
 use crate::instruction::Instruction;
 use std::convert::TryFrom;
